@@ -177,6 +177,31 @@ def run_cases(ctx, sp, worlds, allcases, pids, ncov, aliased, renamed):
             json.dump([{"sig": s_, "err": d_["observed"]["first_type_error"] or d_["observed"]["mockery"], "pid": d_["case"]["pid"]}
                        for s_, d_ in ctx.violations] +
                       [{"known": k, "n": v["n"], "example": v["ex"]} for k, v in ctx.known_hits.items()], fh, indent=1, default=str)
+    # ---------------------------------------------------------------- repeated generation (C06-relevant, recorded as a note)
+    # cases where ONE type expression first mentions two packages of the same name (Codegen.tla `samename`): which of them is
+    # aliased must follow the traversal order, never a map order.  Generate them two more times and compare the bytes.
+    import hashlib
+    same = [cs for cs in allcases if cs.pred.get("samename") and cs.mockery[0]]
+    same = ctx.rng.sample(same, min(60, len(same)))
+    n_nondet = 0
+    if same:
+        def digest(cs):
+            return hashlib.sha256((cs.world / cs.outdir / cs.outfile).read_bytes()).hexdigest()
+        first = {cs.cid: digest(cs) for cs in same}
+        differs = set()
+        for rnd in range(2):
+            byworld = {}
+            for cs in same:
+                byworld.setdefault(cs.world, {})[cs.pkgpath] = (cs.cid, cw.mockery_entry(cs))
+            for world, entries in byworld.items():
+                cw.run_chunks(ctx, world, entries, "r%d" % rnd, chunk=20, par=4)
+            differs |= {cs.cid for cs in same if digest(cs) != first[cs.cid]}
+        n_nondet = len(differs)
+        for cs in same:
+            if cs.cid in differs:
+                ctx.note("nondeterministic output (same input, different bytes across runs): %s [%s %s] -- one type mentions two same-named packages"
+                         % (cs.pid, cs.cfg["tmpl"], cs.cfg["place"]))
+    T(ctx, "repeated generation of %d same-name cases" % len(same))
     if n_not_eval and not ctx.violations:
         raise MachineryError("%d cases were not evaluated (too many failing files per chunk) and no violation explains it" % n_not_eval)
     if n_not_eval:
@@ -200,6 +225,7 @@ def run_cases(ctx, sp, worlds, allcases, pids, ncov, aliased, renamed):
                     "config_pairs_covered": ncov, "tlc": sp.tlc,
                     "predicted_issue_reproduced": n_pred_repro, "predicted_issue_not_reproduced": n_pred_not,
                     "failed_without_prediction": n_unpred, "import_drift": n_drift_imp, "name_drift": n_drift_names,
+                    "samename_cases_regenerated": len(same), "nondeterministic_outputs": n_nondet,
                     "executed_with_aliased_import": aliased, "executed_with_renamed_parameter": renamed,
                     "concretisation": cw.concretisation_table()})
     good = [cs for cs in allcases if cs.mockery[0] and cs.pred["expect"]["guarantee"]]
